@@ -115,6 +115,9 @@ func allocModel(n int) porcupine.Model {
 
 func (allocConcEngine) Run(ctx *fw.Ctx, cs any) {
 	c := cs.(*allocConcCase)
+	// (log calls between two steps of an operation widen its windows: a quarter of the histories run at debug level)
+	defer setLogLevelName("fatal")
+	setCaseLogLevel(c.Seed)
 	var a allocators.Allocator
 	var pool *model.Pool
 	var err error
@@ -145,8 +148,9 @@ func (allocConcEngine) Run(ctx *fw.Ctx, cs any) {
 			var mine []int
 			local := make([]porcupine.Operation, 0, c.PerG)
 			<-startGate
+			rehint := -1
 			for i := 0; i < c.PerG; i++ {
-				if rng.Intn(100) < 8 || (len(mine) > 0 && rng.Intn(100) < 45) {
+				if rehint < 0 && (rng.Intn(100) < 8 || (len(mine) > 0 && rng.Intn(100) < 45)) {
 					var b int
 					if len(mine) == 0 || rng.Intn(100) < 15 {
 						// a block this caller does not (or no longer) hold: free, held by somebody else (two
@@ -156,6 +160,9 @@ func (allocConcEngine) Run(ctx *fw.Ctx, cs any) {
 						k := rng.Intn(len(mine))
 						b = mine[k]
 						mine = append(mine[:k], mine[k+1:]...)
+						if rng.Intn(2) == 0 {
+							rehint = b // give it back and ask for it again at once (a renewal): nobody else can have taken it unless they really got it
+						}
 					}
 					target := net.IPNet{IP: pool.IP(pool.BlockBase(int64(b)))}
 					if c.V4 {
@@ -171,8 +178,11 @@ func (allocConcEngine) Run(ctx *fw.Ctx, cs any) {
 				}
 				hint := -1
 				var h net.IPNet
-				if rng.Intn(2) == 0 {
+				if rehint >= 0 || rng.Intn(2) == 0 {
 					hint = rng.Intn(c.Blocks)
+					if rehint >= 0 {
+						hint, rehint = rehint, -1
+					}
 					h.IP = pool.IP(pool.BlockBase(int64(hint)))
 					if c.V4 {
 						h.Mask = net.CIDRMask(32, 32)
